@@ -1,4 +1,7 @@
-"""C18 — FallbackClient: reads fall through in order, writes touch only the primary."""
+"""C18 — FallbackClient: reads fall through in order, writes touch only the primary.
+Single calls are compared with `Fallback.firstHit` (driver `fallback`); histories on one object - state changes of the caches, reconfiguration
+of `fc.caches`, close/quit/stats, random mixed histories - are recorded by `Hist` and compared step by step (call log and result, final list)
+with the state machine `FallbackHist.run` (driver `fallbackhist`); disagreements name the `C18_hist_*` theorem about that kind of step."""
 import itertools
 
 from common import Ctx, import_repo
@@ -48,6 +51,141 @@ WRITES = {
 DEFAULTS = {"expire": 0, "noreply": True, "delay": 0}
 
 
+# ---------------------------------------------------------------------------------------------------------------------------------
+# histories on ONE object, compared step by step with the Lean model `FallbackHist.run` (driver command `fallbackhist`)
+# ---------------------------------------------------------------------------------------------------------------------------------
+READ_OPS = ("get", "gets", "get_many", "gets_many")
+
+
+def tok(x):
+    """one argument as a token of the model line (no blanks and none of , ; : + | ( ) =)"""
+    if isinstance(x, tuple) and len(x) == 2 and x[0] == "arg":
+        return str(x[1])
+    if x is True or x is False or x is None:
+        return repr(x)
+    if isinstance(x, (int, str)):
+        return str(x)
+    try:
+        return "[" + "&".join(sorted(map(str, x))) + "]"
+    except TypeError:
+        return "?" + type(x).__name__
+
+
+def enc_caches(caches):
+    """`<id>/<answers to get, gets, get_many, gets_many>`: a scripted cache answers all four reads according to its kind"""
+    return "+".join(f"{c.idx}/{ {NONE: 'N', EMPTY: 'E', HIT: 'H'}[c.kind] * 4}" for c in caches) or "-"
+
+
+def bound_args(name, a, kw):
+    """the arguments a cache received, bound to the parameter order of the method (forwarding by keyword with the right names is the same call)"""
+    kw = dict(kw)
+    vals = [tok(v) for v in a]
+    for p_ in WRITES.get(name, ())[len(a):]:
+        if p_ not in kw:
+            break
+        vals.append(tok(kw.pop(p_)))
+    return vals + [f"{k_}={tok(v_)}" for k_, v_ in sorted(kw.items())]
+
+
+class Hist:
+    """Performs a history on one FallbackClient and records it twice: as the operations of the model line, and as what really happened
+    (per step: the calls the caches received and the result).  `configured` is the list of caches as the APPLICATION last set it."""
+
+    def __init__(self, ctx, fc, log, case):
+        self.ctx, self.fc, self.log, self.case = ctx, fc, log, case
+        self.configured = list(fc.caches)
+        self.init = enc_caches(self.configured)
+        self.ops, self.real, self.kinds = [], [], []
+
+    def sync(self):
+        """the application has changed `fc.caches` (assignment or in-place edit) or the state of the caches: one `setCaches` step"""
+        self.configured = list(self.fc.caches)
+        self.ops.append("setc:" + enc_caches(self.configured))
+        self.real.append("-=>None")
+        self.kinds.append("setc")
+
+    def call(self, op, *a, **kw):
+        n0 = len(self.log)
+        exc = None
+        try:
+            res = getattr(self.fc, op)(*a, **kw)
+        except Exception as e:
+            res, exc = None, e
+        entries = self.log[n0:]
+        if op in READ_OPS:
+            self.ops.append(f"{op}:{tok(a[0])}")
+            self.kinds.append("read")
+            if exc is not None:
+                r = "exc:" + type(exc).__name__
+            elif res is None:
+                r = "None"
+            elif isinstance(res, list) and not res:
+                r = "[]"
+            elif isinstance(res, dict) and res and all(isinstance(v, tuple) and v[0] == "hit" for v in res.values()):
+                r = "H" + "/".join(sorted({str(v[1]) for v in res.values()}))
+            elif isinstance(res, tuple) and res[:1] == ("hit",):
+                r = f"H{res[1]}"
+            elif (res == 0 and isinstance(res, int)) or res == {}:
+                r = "E"
+            else:
+                r = "?" + repr(res)[:40]
+        else:
+            if op in WRITES:
+                params = WRITES[op]
+                given = [tok(a[i]) if i < len(a) else tok(kw[p_]) if p_ in kw else "-" for i, p_ in enumerate(params)]
+                given += [tok(v) for v in a[len(params):]] + [f"{k_}={tok(v_)}" for k_, v_ in sorted(kw.items()) if k_ not in params]
+                self.ops.append(f"{op}:{','.join(given)}")
+                self.kinds.append("write")
+            else:
+                self.ops.append(op)
+                self.kinds.append(op)
+            # what a mutating / non-data call returns is not part of the property; an exception is
+            r = "None" if exc is None else type(exc).__name__ if isinstance(exc, (TypeError, IndexError)) else "exc:" + type(exc).__name__
+        calls = "+".join(f"{i}.{name}({','.join(bound_args(name, a_, kw_))})" for i, name, a_, kw_ in entries) or "-"
+        self.real.append(f"{calls}=>{r}")
+        if exc is not None and op in READ_OPS:
+            # the scripted caches never raise: a read that raises is a failure of the read itself (and the model comparison will name the step)
+            self.ctx.violation("a read raised although no cache did", dict(self.case, history=list(self.ops), configured=[c_.idx for c_ in self.configured],
+                                                                          error=repr(exc)[:80]), tags=["history", "read-raised"])
+            return None
+        if exc is not None:
+            raise exc
+        return res
+
+    def line(self):
+        return f"fallbackhist init={self.init} ops={';'.join(self.ops) or '-'}"
+
+    THEOREM = {"close": "C18_hist_close_calls_every_cache_in_order", "quit": "C18_hist_quit_stats_do_nothing", "stats": "C18_hist_quit_stats_do_nothing",
+               "setc": "C18_hist_state_is_last_assigned"}
+
+    def compare(self, reply):
+        """model reply vs what happened; the first differing step is reported under the theorem that speaks about that kind of step"""
+        now = ",".join(str(c.idx) for c in self.fc.caches) or "-"
+        case = dict(self.case, history=self.ops, init=self.init)
+        if not reply.startswith("ok steps=") or " caches=" not in reply:
+            self.ctx.disagreement("the model did not accept the history", dict(case, model=reply), theorem="C18_hist_step_output")
+            return
+        steps, ids = reply[len("ok steps="):].split(" caches=")
+        steps = [] if steps == "-" else steps.split("|")
+        if len(steps) != len(self.real):
+            self.ctx.disagreement("model and implementation histories differ in length", dict(case, model=reply), theorem="C18_hist_outputs_length")
+            return
+        for n, (m, r, kind) in enumerate(zip(steps, self.real, self.kinds)):
+            if m != r:
+                if kind == "read":
+                    th = "C18_hist_read_all_miss" if m.endswith(("=>None", "=>[]")) else "C18_hist_read_first_hit"
+                elif kind == "write":
+                    th = "C18_hist_write_failed_touches_nothing" if m.endswith("Error") else "C18_hist_write_first_only"
+                else:
+                    th = self.THEOREM[kind]
+                self.ctx.disagreement("model FallbackHist.run differs from the implementation at one step of a history on one object",
+                                      dict(case, step=n, operation=self.ops[n], impl=r, model=m), theorem=th)
+                return
+        if ids != now:
+            self.ctx.disagreement("after the history the object's list of caches is not the one the application assigned last",
+                                  dict(case, impl_caches=now, model_caches=ids), theorem="C18_hist_list_changes_only_by_setCaches")
+
+
 def main(argv):
     ctx = Ctx("C18", argv)
     ctx.prepare_lean()
@@ -55,9 +193,11 @@ def main(argv):
     from pymemcache.fallback import FallbackClient
     ctx.rule = ("exhaustive: 1..4 caches (5 in thorough) x every assignment of {None, falsy-non-None, hit} x 4 read ops; "
                 "every mutating op x positional/keyword/default argument forms x 1..4 caches; "
-                "non-trivial = distinct (op, assignment)")
+                "histories on one object (state changes of the caches, reconfiguration of the list, close/quit/stats, 500 (4000) random mixed histories) "
+                "compared step by step with the model FallbackHist.run; non-trivial = distinct (op, assignment) / distinct history")
     ctx.exhaustive = True
     lines, metas = [], []
+    hists = []            # recorded histories on one object (class Hist), compared with the model at the end
     for n in range(1, 6 if ctx.thorough else 5):
         for kinds in itertools.product([NONE, EMPTY, HIT], repeat=n):
             for op in ("get", "gets", "get_many", "gets_many"):
@@ -92,10 +232,10 @@ def main(argv):
                 metas.append((case, real))
     # histories on ONE FallbackClient object: the caches change state between the calls ("for every state of the underlying caches");
     # every read of the history is judged like a single read, and consults the model for that state
-    def judge(fc, log, kinds, op, hist, coll=list):
+    def judge(fc, log, kinds, op, hist, coll=list, rec=None):
         del log[:]
         arg = "k" if op in ("get", "gets") else coll(["k", "j"])
-        res = getattr(fc, op)(arg)
+        res = rec.call(op, arg) if rec is not None else getattr(fc, op)(arg)
         multi = op.endswith("many")
         hit = (lambda k: k == HIT) if multi else (lambda k: k != NONE)
         first = next((i for i, k in enumerate(kinds) if hit(k)), None)
@@ -125,7 +265,9 @@ def main(argv):
                     fc = FallbackClient([Cache(i, k, log) for i, k in enumerate(kinds)])
                     ctx.case(("coll", n, kinds, op, cname))
                     ctx.count("key-collection-types")
-                    judge(fc, log, kinds, op, [op + "(" + cname + ")"], coll=coll)
+                    rec = Hist(ctx, fc, log, {"section": "keys given as a " + cname, "op": op})
+                    hists.append(rec)
+                    judge(fc, log, kinds, op, [op + "(" + cname + ")"], coll=coll, rec=rec)
     READS = ("get", "gets", "get_many", "gets_many")
     for n in (2, 3):
         states = list(itertools.product([NONE, EMPTY, HIT], repeat=n))
@@ -137,22 +279,26 @@ def main(argv):
                     fc = FallbackClient(caches)
                     ctx.case(("hist", n, k1, k2, op1, op2))
                     ctx.count("two-call-histories")
-                    if not judge(fc, log, k1, op1, [op1]):
+                    rec = Hist(ctx, fc, log, {"section": "two-call history, the caches change state between the calls", "ops": [op1, op2]})
+                    hists.append(rec)
+                    if not judge(fc, log, k1, op1, [op1], rec=rec):
                         continue
                     for c, k in zip(caches, k2):
                         c.kind = k
+                    rec.sync()
                     if ctx.thorough or (hash((k1, k2, op1)) % 4 == 0):
-                        fc.set("k", "v")          # a write in between goes to the primary only and changes nothing for the reads
+                        rec.call("set", "k", "v")          # a write in between goes to the primary only and changes nothing for the reads
                         if [e[0] for e in log if e[1] == "set"] != [0]:
                             ctx.violation("mutating operation not applied to exactly the first cache (in a sequence of calls on one object)",
                                           {"history": [op1, "set"], "log": repr(log)}, tags=["history"])
                             continue
-                    if not judge(fc, log, k2, op2, [op1, op2]):
+                    if not judge(fc, log, k2, op2, [op1, op2], rec=rec):
                         continue
                     if n == 2 or ctx.thorough:
                         for c, k in zip(caches, k1):
                             c.kind = k
-                        judge(fc, log, k1, op1, [op1, op2, op1])
+                        rec.sync()
+                        judge(fc, log, k1, op1, [op1, op2, op1], rec=rec)
     if ctx.lean.build_ok:
         for (case, real), m in zip(metas, ctx.driver.batch(lines)):
             if m != real:
@@ -221,13 +367,15 @@ def main(argv):
                     kinds = [NONE] * n
                     kinds[pos] = HIT
                     fc = FallbackClient([Cache(i, k, log) for i, k in enumerate(kinds)])
-                    getattr(fc, rop)("k" if rop in ("get", "gets") else ["k", "j"])
+                    rec = Hist(ctx, fc, log, {"section": "a read answered by a fallback cache, then a mutating operation", "read": rop, "write": wop})
+                    hists.append(rec)
+                    rec.call(rop, "k" if rop in ("get", "gets") else ["k", "j"])
                     del log[:]
                     vals = {p_: ("arg", p_) for p_ in params}
                     if "key" in params:
                         vals["key"] = "k"
                     try:
-                        getattr(fc, wop)(**vals)
+                        rec.call(wop, **vals)
                     except Exception as e:
                         ctx.violation("a mutating operation raised after a read", {"read": rop, "answered_by_cache": pos, "write": wop, "error": repr(e)[:80]}, tags=["history"])
                         continue
@@ -244,9 +392,11 @@ def main(argv):
                 log = []
                 caches = [Cache(i, HIT if i == n - 1 else NONE, log) for i in range(n)]
                 fc = FallbackClient(list(caches))
+                rec = Hist(ctx, fc, log, {"section": "reconfiguration history", "caches_before": n, "change": change, "object_used_before": used_before})
+                hists.append(rec)
                 if used_before:
-                    fc.set("k", "v")
-                    fc.get("k")
+                    rec.call("set", "k", "v")
+                    rec.call("get", "k")
                 new = Cache(9, NONE, log)
                 if change == "insert-first":
                     fc.caches.insert(0, new)
@@ -260,18 +410,19 @@ def main(argv):
                 else:
                     fc.caches.reverse()
                     now = caches[::-1]
+                rec.sync()
                 ctx.case(("reconfigure", n, change, used_before))
                 ctx.count("reconfiguration-histories")
                 case = {"caches_before": n, "change": change, "object_used_before": used_before}
                 for wop, params in WRITES.items():
                     del log[:]
-                    getattr(fc, wop)(**{p_: ("arg", p_) for p_ in params})
+                    rec.call(wop, **{p_: ("arg", p_) for p_ in params})
                     if [e[0] for e in log] != [now[0].idx] or log[0][1] != wop:
                         ctx.violation("after the list of caches was changed, a mutating operation was not applied to exactly the (new) first cache",
                                       dict(case, write=wop, went_to=[e[0] for e in log], first_cache_now=now[0].idx), tags=["history", "reconfigure"])
                         break
                 del log[:]
-                fc.get("k")
+                rec.call("get", "k")
                 kinds_now = [c_.kind for c_ in now]
                 first = next((i for i, k_ in enumerate(kinds_now) if k_ != NONE), None)
                 want = [c_.idx for c_ in (now if first is None else now[:first + 1])]
@@ -289,22 +440,24 @@ def main(argv):
                 ctx.case(("non-data-ops", n, tuple(between), hitpos))
                 ctx.count("non-data-operation-histories")
                 case = {"caches": n, "operations_before": between, "hit_in_cache": hitpos}
+                rec = Hist(ctx, fc, log, dict(case, section="operations that are neither reads nor writes (close, quit, stats)"))
+                hists.append(rec)
                 try:
                     for b_ in between:
-                        fc.get("k") if b_ == "get" else fc.set("k", "v") if b_ == "set" else getattr(fc, b_)()
+                        rec.call("get", "k") if b_ == "get" else rec.call("set", "k", "v") if b_ == "set" else rec.call(b_)
                 except Exception as e:
                     ctx.violation("close/quit/stats raised", dict(case, error=repr(e)[:80]), tags=["history", "non-data-ops"])
                     continue
                 bad = None
                 for wop, params in WRITES.items():
                     del log[:]
-                    getattr(fc, wop)(**{p_: ("arg", p_) for p_ in params})
+                    rec.call(wop, **{p_: ("arg", p_) for p_ in params})
                     if [e[0] for e in log] != [0] or log[0][1] != wop:
                         bad = f"{wop} was applied to cache(s) {[e[0] for e in log]}, not to the first one"
                         break
                 for rop in ("get", "gets", "get_many", "gets_many"):
                     del log[:]
-                    getattr(fc, rop)("k" if not rop.endswith("many") else ["k"])
+                    rec.call(rop, "k" if not rop.endswith("many") else ["k"])
                     if bad is None and [e[0] for e in log] != list(range(hitpos + 1)):
                         bad = f"{rop} consulted caches {[e[0] for e in log]}, configured order is {list(range(n))} with the hit in {hitpos}"
                 if bad:
@@ -332,5 +485,127 @@ def main(argv):
                                 ctx.violation("the list of caches was replaced while a read was in progress: the read consulted a mixture of the two configurations",
                                               {"old": list(range(n)), "new": [10 + i for i in range(m)], "replaced_while_waiting_for": during_idx, "old_hit": old_hit, "new_hit": new_hit,
                                                "read": rop, "consulted": got, "old_configuration_would_consult": want_old}, tags=["history", "reconfigure-during-read"])
+    # mixed histories on ONE object, every kind of step in any order: reads, mutating calls in every argument form (also calls that cannot be made:
+    # a required argument left out, or no cache configured), close / quit / stats, the application re-assigning or editing `fc.caches` (also to the
+    # empty list, also the same cache twice) and the caches changing state.  Reads and well-formed writes are judged by the statement against the list as
+    # the APPLICATION last set it; every step (log and result) and the final list are compared with the model `FallbackHist.run`.
+    rng = ctx.rng
+    for hno in range(4000 if ctx.thorough else 500):
+        log = []
+        pool = [Cache(i, rng.choice([NONE, NONE, EMPTY, HIT]), log) for i in range(6)]
+        fc = FallbackClient([rng.choice(pool) for _ in range(rng.randrange(1, 5))] if hno % 7 == 0 else rng.sample(pool, rng.randrange(1, 5)))
+        rec = Hist(ctx, fc, log, {"section": "mixed history on one object", "history_number": hno})
+        hists.append(rec)
+        for _ in range(rng.randrange(1, 14)):
+            step = rng.choice(["read"] * 4 + ["write"] * 4 + ["nondata"] * 3 + ["reconfigure"] * 2 + ["cache-state", "bad-write"])
+            conf = rec.configured
+            n0 = len(log)
+            if step == "read":
+                rop = rng.choice(READ_OPS)
+                multi = rop.endswith("many")
+                arg = rng.choice([["k", "j"], ("k",), {"k", "j"}]) if multi else rng.choice(["k", "j"])
+                res = rec.call(rop, arg)
+                entries = log[n0:]
+                hitf = (lambda k_: k_ == HIT) if multi else (lambda k_: k_ != NONE)
+                first = next((i for i, c_ in enumerate(conf) if hitf(c_.kind)), None)
+                want = [c_.idx for c_ in (conf if first is None else conf[:first + 1])]
+                case = dict(rec.case, history=list(rec.ops), configured=[c_.idx for c_ in conf], kinds=[c_.kind for c_ in conf], consulted=[e[0] for e in entries], result=repr(res)[:60])
+                if [e[0] for e in entries] != want or any(e[1] != rop or e[2] != (arg,) or e[3] for e in entries):
+                    ctx.violation("caches not consulted in the configured order up to and including the first hit (mixed history on one object)", case, tags=["history"])
+                    break
+                if first is None:
+                    ok = (res == [] and isinstance(res, list)) if multi else res is None
+                else:
+                    c_ = conf[first]
+                    ok = res == ({"k": ("hit", c_.idx)} if multi else (("hit", c_.idx) if c_.kind == HIT else 0))
+                if not ok:
+                    ctx.violation("read did not return the first hit / the fall-through value (mixed history on one object)", case, tags=["history"])
+                    break
+            elif step == "write":
+                wop = rng.choice(list(WRITES))
+                params = WRITES[wop]
+                vals = {p_: ("arg", p_ + str(rng.randrange(3))) for p_ in params}
+                form = rng.choice(["positional", "keyword", "defaults", "mixed"])
+                if form == "positional":
+                    a, kw = [vals[p_] for p_ in params], {}
+                elif form == "keyword":
+                    a, kw = [], dict(vals)
+                elif form == "defaults":
+                    a, kw = [vals[p_] for p_ in params if p_ not in DEFAULTS], {}
+                else:
+                    cut = rng.randrange(len(params) + 1)
+                    a = [vals[p_] for p_ in params[:cut]]
+                    kw = {p_: vals[p_] for p_ in params[cut:] if p_ not in DEFAULTS or rng.random() < .5}
+                want = tuple(tok(vals[p_]) if (i < len(a) or p_ in kw) else tok(DEFAULTS[p_]) for i, p_ in enumerate(params))
+                try:
+                    rec.call(wop, *a, **kw)
+                    err = None
+                except Exception as e:
+                    err = e
+                entries = log[n0:]
+                case = dict(rec.case, history=list(rec.ops), configured=[c_.idx for c_ in conf], write=wop, form=form, log=repr(entries)[:200], error=repr(err)[:80])
+                if conf:
+                    if err is not None:
+                        ctx.violation("a mutating operation raised on a healthy first cache (mixed history on one object)", case, tags=["history"])
+                        break
+                    if [e[0] for e in entries] != [conf[0].idx] or entries[0][1] != wop:
+                        ctx.violation("mutating operation not applied to exactly the first cache of the configured list (mixed history on one object)", case, tags=["history"])
+                        break
+                    if tuple(bound_args(wop, entries[0][2], entries[0][3])) != want:
+                        ctx.violation("caller's arguments not forwarded unchanged (mixed history on one object)", dict(case, want=want), tags=["history"])
+                        break
+                elif entries:
+                    ctx.violation("a mutating operation reached a cache although none is configured", case, tags=["history"])
+                    break
+            elif step == "bad-write":
+                wop = rng.choice([w_ for w_ in WRITES if w_ != "flush_all"])
+                try:
+                    rec.call(wop) if rng.random() < .5 else rec.call(wop, noreply=False)     # `key` is missing: Python refuses the call
+                except TypeError:
+                    pass
+                if log[n0:]:
+                    ctx.violation("a call that cannot be made (required argument missing) reached a cache",
+                                  dict(rec.case, history=list(rec.ops), log=repr(log[n0:])[:200]), tags=["history"])
+                    break
+            elif step == "nondata":
+                try:
+                    rec.call(rng.choice(["close", "close", "quit", "stats"]))
+                except Exception as e:
+                    ctx.violation("close/quit/stats raised", dict(rec.case, history=list(rec.ops), error=repr(e)[:80]), tags=["history", "non-data-ops"])
+                    break
+            elif step == "reconfigure":
+                how = rng.choice(["insert-first", "replace-first", "assign", "reverse", "pop", "append", "assign-empty", "assign-same-twice"])
+                cs = fc.caches
+                if how == "insert-first":
+                    cs.insert(0, rng.choice(pool))
+                elif how == "replace-first" and cs:
+                    cs[0] = rng.choice(pool)
+                elif how == "reverse":
+                    cs.reverse()
+                elif how == "pop" and cs:
+                    cs.pop(rng.randrange(len(cs)))
+                elif how == "append":
+                    cs.append(rng.choice(pool))
+                elif how == "assign-empty":
+                    fc.caches = []
+                elif how == "assign-same-twice":
+                    c_ = rng.choice(pool)
+                    fc.caches = [c_, c_]
+                else:
+                    fc.caches = rng.sample(pool, rng.randrange(1, 5))
+                rec.sync()
+            else:
+                for c_ in pool:
+                    if rng.random() < .5:
+                        c_.kind = rng.choice([NONE, EMPTY, HIT])
+                rec.sync()
+        ctx.case(("mixed-history", tuple(rec.ops), rec.init))
+        ctx.count("mixed histories on one object")
+        ctx.count("mixed-history steps", len(rec.ops))
+    # every recorded history, step by step (log and result) and the final list of caches, against the model
+    if ctx.lean.build_ok and hists:
+        ctx.count("histories compared step by step with the model", len(hists))
+        for rec, m in zip(hists, ctx.driver.batch([r.line() for r in hists])):
+            rec.compare(m)
     ctx.assumptions = ["caches are scripted objects; only the call log is observed"]
     ctx.finish()
